@@ -41,7 +41,7 @@ def run(idx: Index, rep: Report, tier: str):
         for n in own_nodes(fn.node):
             if isinstance(n, ast.Compare) and isinstance(n.ops[0], (ast.Is, ast.IsNot)) and isinstance(n.comparators[0], ast.Constant) and isinstance(n.comparators[0].value, bool) \
                     and isinstance(n.left, ast.Name):
-                rep.info("K12.identity-on-array", fn, n, text=norm(n), reason="`array is False` is an identity test on the array object (always False): the index filter selects nothing")
+                rep.violation("K12.identity-on-array", fn, n, text=norm(n), what="boolean masks are tested element-wise, not by identity", reason="`array is False` is an identity test on the array object (always False); inside np.where it makes NumPy 2 raise for every input (NumPy 1: the filter selected nothing)")
 
 
 # ---------------------------------------------------------------------------------------------------
